@@ -10,6 +10,7 @@ CONSTANTS
   BugB58Prefix = FALSE
   BugCursorChecksum = FALSE
   BugAssocMerge = FALSE
+  BugAssocAbsent = FALSE
   NObj = 3
   SmallVals = FALSE
   NMax = 3
